@@ -908,6 +908,11 @@ class FuncEmitter:
         return [s]
 
     def expr_stmt(self, n):
+        x = n
+        while x.get('kind') in ('ExprWithCleanups', 'ParenExpr'):
+            x = x['inner'][0]
+        if x.get('kind') == 'CXXThrowExpr':
+            return self.throw(x)
         # assert() pattern
         a = self.match_assert(n)
         if a is not None:
@@ -1184,8 +1189,11 @@ class FuncEmitter:
         inner = n.get('inner', [])
         exc = 'EXC_UNKNOWN'
         if inner:
-            t = self.ty(inner[0]).strip_ref()
-            exc = 'EXC_' + re.sub(r'\W+', '_', t.name.split('::')[-1])
+            try:
+                t = self.ty(inner[0]).strip_ref()
+                exc = 'EXC_' + re.sub(r'\W+', '_', (t.name or 'UNKNOWN').split('::')[-1])
+            except ExtractionBreak:
+                exc = 'EXC_UNKNOWN'
         return ['__exc = %s;' % exc, self.ret_dummy()]
 
     # ------------------------------------------------------------ expressions
